@@ -18,7 +18,7 @@ import (
 /* ---------- schedule mode: service commands racing with an immediately answering broker, connection loss and Stop ---------- */
 
 type c17race struct {
-	Third string // none | drop | stop | stop-clear | stop+drop | stop-clear+drop
+	Third string // none | drop | stop | stop-clear | stop+drop | stop-clear+drop | stop+start | stop-clear+start
 }
 
 func init() {
@@ -37,6 +37,7 @@ func c17Race(x *explore.X, pr c17race) {
 	n := &net{x: x}
 	var order []string // command packets in the order they reached the broker (first transmissions)
 	acked := map[string]bool{}
+	hold := false // the broker withholds PUBACKs (epilogue)
 	// the scripted broker: one autonomous thread per connection, accepts and answers everything at once
 	n.onDial = func(s *side) {
 		go func() {
@@ -52,6 +53,9 @@ func c17Race(x *explore.X, pr c17race) {
 					s.B.Send(packet.NewConnack(), false)
 				case *packet.Publish:
 					tag := "pub:" + string(p.Message.Payload)
+					if hold {
+						continue
+					}
 					if !acked[tag] {
 						order = append(order, tag) // first arrival (a retransmission may be the first one to get through)
 					}
@@ -77,13 +81,15 @@ func c17Race(x *explore.X, pr c17race) {
 	svc := client.NewService()
 	svc.Session = &recSession{MemorySession: session.NewMemorySession()}
 	svc.MinReconnectDelay = time.Second // manual timer
-	online := 0
-	svc.OnlineCallback = func(bool) { online++ }
+	onlineCount := 0
+	onlineNow := false
+	svc.OnlineCallback = func(bool) { onlineCount++; onlineNow = true }
+	svc.OfflineCallback = func() { onlineNow = false }
 	conf := cfg(n, false)
 	svc.Start(conf)
 	vrt.Quiesce()
-	if online != 1 || len(n.conns) != 1 {
-		x.Failf("setup", "race-not-online", "the service did not come online against a cooperative broker (online callbacks %d, connections %d)", online, len(n.conns))
+	if onlineCount != 1 || len(n.conns) != 1 {
+		x.Failf("setup", "race-not-online", "the service did not come online against a cooperative broker (online callbacks %d, connections %d)", onlineCount, len(n.conns))
 		return
 	}
 	first := n.conns[0]
@@ -128,22 +134,42 @@ func c17Race(x *explore.X, pr c17race) {
 	if strings.HasSuffix(pr.Third, "drop") {
 		go func() { first.B.Close() }()
 	}
+	startDone := true
+	if strings.HasSuffix(pr.Third, "+start") {
+		// Start and Stop called from different goroutines at the same time
+		startDone = false
+		go func() { svc.Start(conf); startDone = true }()
+	}
 	vrt.Quiesce()
 	vrt.Quiet(true)
 	// let pending timeouts (disconnect timeout, reconnect back-off) pass
-	pass := func() {
-		for i := 0; i < 8; i++ {
+	// let pending timeouts pass (disconnect timeout, reconnect back-off) until done() holds or no timer is left. Timers left
+	// behind by finished waits (future.Store.Await creates one per poll) fire first and do nothing, hence the generous cap.
+	pass := func(done func() bool) {
+		for i := 0; i < 3000; i++ {
 			vrt.Quiesce()
-			if !vrt.FireNext() {
+			if done() || !vrt.FireNext() {
 				break
 			}
 		}
 		vrt.Quiesce()
 	}
-	pass()
+	online := func() bool { c := n.cur(); return c != nil && c.open() && onlineNow }
+	pass(func() bool {
+		for _, c := range cmds {
+			if !c.w.resolved {
+				return false
+			}
+		}
+		return issuedAll && stopDone && startDone && (strings.HasPrefix(pr.Third, "stop") || online())
+	})
 	ctx := pr.Third
 	if !issuedAll {
 		x.Failf("calls-return", "race-command-blocked:"+ctx, "a Service.Subscribe / Publish / Unsubscribe call has not returned; blocked: %v", vrt.Blocked())
+		return
+	}
+	if !startDone {
+		x.Failf("calls-return", "race-start-blocked:"+ctx, "Service.Start (concurrent with Stop) has not returned; blocked: %v", vrt.Blocked())
 		return
 	}
 	if !stopDone {
@@ -162,7 +188,7 @@ func c17Race(x *explore.X, pr c17race) {
 	if strings.HasPrefix(pr.Third, "stop") {
 		// a later restart works and carries out what is still queued
 		svc.Start(conf)
-		pass()
+		pass(online)
 	}
 	for _, c := range cmds {
 		x.Logf("issued %s at t=%d: future %s", c.tag, c.at, state(c.w))
@@ -203,6 +229,22 @@ func c17Race(x *explore.X, pr c17race) {
 		if _, ok := pos[c.tag]; !ok && pr.Third == "none" {
 			x.Failf("commands-carried-out", "race-command-lost:"+c.kind, "%s was issued while online, nothing interfered, but the broker never saw it (it saw %v)", c.tag, order)
 		}
+	}
+	// whatever happened above, the running service still keeps futures across a reconnect: a publish whose PUBACK is
+	// withheld, a connection loss, a reconnect, the acknowledgement of the retransmission - the future completes
+	hold = true
+	late := &issued{kind: "pub", tag: "pub:late"}
+	late.w = watch("publish", svc.Publish("p", []byte("late"), 1, false))
+	vrt.Quiesce()
+	if cur2 := n.cur(); cur2 != nil && cur2.open() {
+		cur2.B.Close()
+	}
+	hold = false
+	pass(func() bool { return late.w.resolved })
+	if !late.w.resolved {
+		x.Failf("futures-survive", "race-late-future-pending:"+ctx, "a publish issued after the raced phase (ack withheld, connection dropped, reconnected, retransmission acknowledged: %v) never resolves; broker saw %v; connections dialled %d; blocked: %v", acked["pub:late"], order, len(n.conns), vrt.Blocked())
+	} else if late.w.err != nil && acked["pub:late"] {
+		x.Failf("futures-survive", "race-late-future-cancelled:"+ctx, "a publish issued after the raced phase was retransmitted and acknowledged through the resumed session, yet its future was cancelled (%v): the service no longer protects futures across reconnects", late.w.err)
 	}
 	x.Note("raced")
 	x.Outcome(strings.Join(order, ","))
